@@ -150,6 +150,14 @@ func c08plans(r *rng, idx int, thorough bool) (plans []c08Plan, label string) {
 			ps = append(ps, c08Plan{firstBefore: time.Duration(b) * 7 * sec, boundary: b, clientOff: 60 * sec, later: []time.Duration{-sec, 500 * time.Millisecond, 30 * sec}, tr: "tls", br: b % 3})
 		}
 		return ps, "multi-pass"
+	case idx == 3:
+		// the server reads its clock more than once per presentation (registration, then the window test): with a clock that
+		// moves 2 ms per reading (c08sub), the first reading of the first presentation is 1 ms before a whole second and the
+		// window test 1 ms after it; the client is 179.999 s ahead; the pass comes 359.501 s later; then the packet again
+		return []c08Plan{{firstBefore: 359*sec + 501*time.Millisecond, boundary: 1, clientOff: 180*sec + time.Millisecond,
+			later: []time.Duration{100 * time.Millisecond}, tr: "ws"},
+			{firstBefore: 359*sec + 501*time.Millisecond, boundary: 2, clientOff: 180*sec + time.Millisecond,
+				later: []time.Duration{100 * time.Millisecond}, tr: "tls", br: brFirefox}}, "clock-moves-between-readings"
 	}
 	n := 6 + r.intn(10)
 	nb := 1 + r.intn(2)
@@ -195,7 +203,13 @@ func c08sub(c *ctx) {
 	r := &rng{c.seed*0x9e3779b97f4a7c15 + uint64(idx)*0x1234567 + 77}
 	synctest.Run(func() {
 		keys := newServerKeys(r)
-		sta := newState(keys, stateOpts{bypass: [][]byte{c08UID}, now: time.Now})
+		nowFn := time.Now
+		if idx == 3 {
+			// a clock that moves between two readings, and cleaner passes that do not fall on whole seconds
+			nowFn = func() time.Time { t := time.Now(); time.Sleep(2 * time.Millisecond); return t }
+			time.Sleep(500 * time.Millisecond)
+		}
+		sta := newState(keys, stateOpts{bypass: [][]byte{c08UID}, now: nowFn})
 		t0 := time.Now()
 		period := server.VerifCleanerPeriod()
 		c.o.T("rc.new", "ok")
